@@ -1646,6 +1646,18 @@ def edit_replace(old: str, new: str) -> Callable[[LexSpec], Optional[LexSpec]]:
     return lambda spec: respec(spec, spec.pattern.replace(old, new)) if old in spec.pattern else None
 
 
+def edit_optional(rule: str) -> Callable[[LexSpec], Optional[LexSpec]]:
+    """the whole body of `rule` becomes optional (the rule can match the empty string)"""
+    def f(spec: LexSpec) -> Optional[LexSpec]:
+        try:
+            src = _rule_source(spec.pattern, rule)
+        except ValueError:
+            return None
+        head = f"(?P<{rule}>"
+        return respec(spec, spec.pattern.replace(src, f"{head}(?:{src[len(head):-1]})?)"))
+    return f
+
+
 def edit_swap(a: str, b: str) -> Callable[[LexSpec], Optional[LexSpec]]:
     def f(spec: LexSpec) -> Optional[LexSpec]:
         try:
